@@ -64,6 +64,7 @@ def _compute_thl_try_speciation(
     table: THLTable,
     costs: CostValues,
 ) -> None:
+    spe_cost = costs[NodeEvent.SPECIATION]
     loss_cost = costs[EdgeEvent.FULL_LOSS]
 
     left_species, right_species = root_species.children
@@ -96,7 +97,8 @@ def _compute_thl_try_speciation(
 
     def spe_combinator(left, right):
         return Candidate(
-            left.value
+            spe_cost
+            + left.value
             + right.value
             + loss_cost
             * (
